@@ -24,8 +24,8 @@ PROP = dict(
           'differ, or the encodings have equal length and differ in exactly '
           'one payload byte); distinct by hash of (arity, entry point, all '
           'values)'),
-    quick=dict(configs=['asan', 'rel'], cases=16000000, maxlen=80),
-    thorough=dict(configs=['asan', 'rel'], cases=100000000, maxlen=80,
+    quick=dict(configs=['asan', 'rel', 'native'], cases=16000000, maxlen=80),
+    thorough=dict(configs=['asan', 'rel', 'native'], cases=100000000, maxlen=80,
                   fuzz_s=60, setmax=1 << 23),
     required_classes=['pair.equal', 'pair.adjacent', 'pair.straddle',
                       'pair.onebyte', 'pair.independent', 'boundary.adjacent',
